@@ -479,6 +479,119 @@ func TestC06Named(t *testing.T) {
 	})
 }
 
+// ---- third arm: the policy changes its answer between renders on one engine ----------------------
+
+// flipPolicy answers from maps that the check edits while the engine holds the policy
+type flipPolicy struct{ filters, functions map[string]bool }
+
+func (p *flipPolicy) IsFunctionAllowed(n string) bool { return p.functions[n] }
+func (p *flipPolicy) IsFilterAllowed(n string) bool   { return p.filters[n] }
+func (p *flipPolicy) IsTagAllowed(string) bool        { return true }
+
+// checkC06Flip: one engine, one policy object; the spy name is allowed, refused, allowed again
+// (or refused first), by editing the policy in place, never calling EnableSandbox again. Every
+// render must obey the answer the policy gives at that moment.
+func checkC06Flip(c C06Case) (bool, error) {
+	if live, _ := checkC06Live(c); !live {
+		return false, nil
+	}
+	tm, _ := c06Build(c, true)
+	def := c06Policy(C06Case{}, false).(*twig.DefaultSecurityPolicy)
+	var pol twig.SecurityPolicy = def
+	filters, functions := def.AllowedFilters, def.AllowedFunctions
+	if c.Custom {
+		pol = &flipPolicy{filters, functions}
+	}
+	e := newEngine(tm)
+	sp := NewSpies()
+	sp.Install(e)
+	e.EnableSandbox(pol)
+	set := func(allowed bool) {
+		if allowed {
+			filters["forbid"], functions["forbid_fn"] = true, true
+		} else {
+			delete(filters, "forbid")
+			delete(functions, "forbid_fn")
+		}
+	}
+	seq := []bool{true, false, true, false}
+	if c.IncOpts&4 != 0 {
+		seq = []bool{false, true, false, true}
+	}
+	for i, allowed := range seq {
+		set(allowed)
+		before := spyHits(sp)
+		ctx := map[string]interface{}{}
+		for k, v := range c06Ctx {
+			ctx[k] = v
+		}
+		r := render(e, "main", ctx)
+		if r.Panic != "" {
+			return true, fmt.Errorf("render %d panicked: %s", i+1, r.Panic)
+		}
+		ran := spyHits(sp) - before
+		if allowed && (r.Failed() || ran == 0) {
+			return true, fmt.Errorf("render %d: the policy allows the name now (it was edited in place after render %d) but the sandboxed render gives %v, spy calls %d; templates:%s", i+1, i, r, ran, showSources(tm))
+		}
+		if !allowed && (ran != 0 || r.Err == "") {
+			return true, fmt.Errorf("render %d: the policy refuses the name now (it was edited in place after render %d) but the spy ran %d time(s), result %v; templates:%s", i+1, i, ran, r, showSources(tm))
+		}
+	}
+	return true, nil
+}
+
+func TestC06Flip(t *testing.T) {
+	r := NewRec(t, "C06", "third arm: one engine and one policy object (DefaultSecurityPolicy whose maps are edited in place, or a harness policy type reading such maps); the spy name is allowed / refused / allowed / refused (or starting refused) between four renders of the same sandboxed arrangement, without calling EnableSandbox again; every occurrence position with no carrier and each single carrier exhaustively, longer chains generated; oracle: each render obeys the policy's answer at that moment (spy ran and output, or security violation and no spy call); non-trivial = the occurrence is live")
+	defer r.Flush()
+	run := func(c C06Case, rt *rapid.T) {
+		if !c06ValidChain(c.Carriers) {
+			return
+		}
+		live, err := checkC06Flip(c)
+		cl := []string{fmt.Sprintf("chain-length:%d", len(c.Carriers))}
+		if !live {
+			cl = append(cl, "not-live")
+		}
+		r.Case(fmt.Sprint(c), live, fmt.Sprint(c), cl...)
+		if err != nil {
+			if rt != nil {
+				r.Fail(rt, "C06.flip", c, err)
+			} else {
+				r.FailEnum(t, "C06.flip", c, err)
+			}
+		}
+	}
+	for _, fn := range []bool{false, true} {
+		npos := len(c06FilterPos)
+		if fn {
+			npos = len(c06FuncPos)
+		}
+		for pos := 0; pos < npos; pos++ {
+			for _, opts := range []int{0, 4} {
+				for _, custom := range []bool{false, true} {
+					run(C06Case{Pos: pos, Fn: fn, IncOpts: opts, Custom: custom}, nil)
+				}
+				for k := range c06CarrierNames {
+					run(C06Case{Pos: pos, Fn: fn, IncOpts: opts, Carriers: []int{k}}, nil)
+				}
+			}
+		}
+	}
+	rapid.Check(t, func(rt *rapid.T) {
+		c := C06Case{Fn: rapid.Bool().Draw(rt, "fn"), MainWrap: rapid.IntRange(0, 4).Draw(rt, "mainwrap"), IncOpts: rapid.IntRange(0, 7).Draw(rt, "incopts"), Custom: rapid.Bool().Draw(rt, "custom")}
+		if c.Fn {
+			c.Pos = rapid.IntRange(0, len(c06FuncPos)-1).Draw(rt, "pos")
+		} else {
+			c.Pos = rapid.IntRange(0, len(c06FilterPos)-1).Draw(rt, "pos")
+		}
+		n := rapid.IntRange(1, 3).Draw(rt, "ncarriers")
+		for i := 0; i < n; i++ {
+			c.Carriers = append(c.Carriers, rapid.IntRange(0, len(c06CarrierNames)-1).Draw(rt, "carrier"))
+		}
+		run(c, rt)
+	})
+}
+
 const c06Rule = "a forbidden spy filter or function written in one of 26 (filter) / 21 (function) syntactic positions, reached from `include 'inner' sandboxed` (optionally with/only, placed at top level, in a loop, condition, block or macro of the unsandboxed template) through a chain of 0-3 carriers out of 14 (include, include only, include with, extends with override, extends with the occurrence in the parent, parent(), import-as + call, from-import + call, local macro, apply, for, if, block, set) under DefaultSecurityPolicy or a harness policy type; non-trivial = the occurrence is live (the spy runs when the include is not sandboxed) and it is not the head of a print tag directly in the sandboxed template; distinct by case parameters"
 
 func TestC06Sandbox(t *testing.T) {
@@ -577,4 +690,5 @@ func init() {
 	reg("C06.sandbox", checkC06)
 	reg("C06.outside", checkC06Outside)
 	reg("C06.named", func(c C06Case) error { _, err := checkC06Named(c); return err })
+	reg("C06.flip", func(c C06Case) error { _, err := checkC06Flip(c); return err })
 }
